@@ -243,4 +243,63 @@ FenRead(text) ==
                 pos |-> [cells |-> [s \in Sq |-> rc[RankOf(s) + 1][FileOf(s) + 1]], side |-> side, castling |-> cr,
                          ep |-> IF fs[4] = <<ChDash>> THEN -1 ELSE MkSq(FileOfCh(fs[4][1]), EpSrcRank(side)),
                          hm |-> hm, fm |-> fm]]
+
+(***************************************************************************)
+(* The FEN reader AS THE CODE DOES IT (FromStr for RawBoard, parse_cells,  *)
+(* parse_ep_source): split at single blanks, fields read in order, the     *)
+(* first failure is the error; counters may be omitted (0 and 1), may      *)
+(* carry a "+" and leading zeros (u16::from_str); a seventh field is extra *)
+(* data.  Result: [ok |-> TRUE, pos |-> ...] or [ok |-> FALSE, err |-> tag]*)
+(* No listed property pins this leniency: Trace compares it as a NOTE.     *)
+(***************************************************************************)
+RECURSIVE ImplCellsFrom(_, _, _, _, _)
+ImplCellsFrom(t, i, file, rank, acc) ==     \* acc: the cells so far, row-major from a8
+  IF i > Len(t) THEN (IF file < 8 THEN [ok |-> FALSE, err |-> "Board.RankUnderflow"]
+                      ELSE IF rank < 7 THEN [ok |-> FALSE, err |-> "Board.Underflow"]
+                      ELSE [ok |-> TRUE, cells |-> acc])
+  ELSE LET ch == t[i] IN
+    IF ch \in 49..56 THEN
+         (IF file + (ch - 48) > 8 THEN [ok |-> FALSE, err |-> "Board.RankOverflow"]
+          ELSE ImplCellsFrom(t, i + 1, file + (ch - 48), rank, acc \o [k \in 1..(ch - 48) |-> 0]))
+    ELSE IF ch = ChSlash THEN
+         (IF file < 8 THEN [ok |-> FALSE, err |-> "Board.RankUnderflow"]
+          ELSE IF rank + 1 >= 8 THEN [ok |-> FALSE, err |-> "Board.Overflow"]
+          ELSE ImplCellsFrom(t, i + 1, 0, rank + 1, acc))
+    ELSE IF file >= 8 THEN [ok |-> FALSE, err |-> "Board.RankOverflow"]
+    ELSE IF ch = 46 THEN ImplCellsFrom(t, i + 1, file + 1, rank, Append(acc, 0))     \* "." is the empty cell's own character
+    ELSE IF CellOfCh(ch) = -1 THEN [ok |-> FALSE, err |-> "Board.UnexpectedChar"]
+    ELSE ImplCellsFrom(t, i + 1, file + 1, rank, Append(acc, CellOfCh(ch)))
+
+\* u16::from_str: optional "+", at least one digit, leading zeros allowed, value <= 65535; -1 on error
+U16Of(t) ==
+  LET d == IF t # <<>> /\ t[1] = ChPlus THEN SubSeq(t, 2, Len(t)) ELSE t IN
+  IF d = <<>> \/ (\E i \in 1..Len(d) : ~IsDigitCh(d[i])) THEN -1
+  ELSE LET v == NatOfFrom(d, 1, 0) IN IF v > 65535 THEN -1 ELSE v
+
+ColorOfTextImpl(t) == IF t = <<119>> THEN 0 ELSE IF t = <<98>> THEN 1 ELSE -1
+ImplFenRead(text) ==
+  LET E(tag) == [ok |-> FALSE, err |-> tag]
+      fs == Split(text)  n == Len(fs) IN
+  IF \E i \in 1..Len(text) : text[i] > 127 THEN E("NonAscii")
+  ELSE LET cl == ImplCellsFrom(fs[1], 1, 0, 0, <<>>) IN
+  IF ~cl.ok THEN cl
+  ELSE IF n < 2 THEN E("NoMoveSide")
+  ELSE LET side == ColorOfTextImpl(fs[2]) IN
+  IF side = -1 THEN E("MoveSide")
+  ELSE IF n < 3 THEN E("NoCastling")
+  ELSE IF RightsOfText(fs[3]) = -1 THEN E("Castling")
+  ELSE IF n < 4 THEN E("NoEnpassant")
+  ELSE LET epf == fs[4]
+           epNone == epf = <<ChDash>>
+           epSq == Len(epf) = 2 /\ IsFileCh(epf[1]) /\ IsRankCh(epf[2]) IN
+  IF ~epNone /\ ~epSq THEN E("Enpassant")
+  ELSE IF ~epNone /\ RankOfCh(epf[2]) # EpDstRank(side) THEN E("InvalidEnpassantRank")
+  ELSE LET hm == IF n >= 5 THEN U16Of(fs[5]) ELSE 0
+           fm == IF n >= 6 THEN U16Of(fs[6]) ELSE 1 IN
+  IF hm = -1 THEN E("MoveCounter")
+  ELSE IF fm = -1 THEN E("MoveNumber")
+  ELSE IF n >= 7 THEN E("ExtraData")
+  ELSE [ok |-> TRUE,
+        pos |-> [cells |-> [s \in Sq |-> cl.cells[s + 1]], side |-> side, castling |-> RightsOfText(fs[3]),
+                 ep |-> IF epNone THEN -1 ELSE MkSq(FileOfCh(epf[1]), EpSrcRank(side)), hm |-> hm, fm |-> fm]]
 =============================================================================
